@@ -33,8 +33,9 @@ import (
 )
 
 const (
-	residentGuard = 1 << 30           // growth of resident memory during one decode that stops the child
-	recycleAlloc  = 256 << 20         // a decode allocating more makes the child hand over to a fresh one
+	residentGuard = 1 << 30           // growth of resident memory during one decode after which it gets no more address space
+	guardHeadroom = 256 << 20         // address space left to a decode the guard has cut off (the runtime's own needs)
+	recycleAlloc  = 64 << 20          // a decode allocating more makes the child hand over to a fresh one
 	childTimeout  = 100 * time.Second // a child making no progress for this long is killed
 	jobEnv        = "LINK_C13_JOB"
 	guardMark     = "resident-memory guard:"
@@ -85,10 +86,12 @@ func statm(field int) int64 {
 // a huge map table by table, and waiting for that to reach the limit would
 // need the limit's worth of real memory in every worker. So once one decode
 // has grown resident memory by residentGuard, the guard lowers the soft
-// address-space limit to what is mapped already: memory the decode already
-// owns stays usable (a large block being zeroed completes), but the next
-// request for address space fails and the runtime dies with its own
-// out-of-memory error. The limit is restored when that decode returns.
+// address-space limit to what is mapped already plus guardHeadroom: memory
+// the decode already owns stays usable (a large block being zeroed
+// completes) and the runtime can still map what it needs for itself, but a
+// decode that keeps asking for address space is refused within a fraction of
+// a second and the runtime dies with its own out-of-memory error. The limit
+// is restored when that decode returns.
 func startGuard(hard uint64) {
 	go func() {
 		seen, base, lowered := int64(-1), int64(0), false
@@ -107,7 +110,7 @@ func startGuard(hard uint64) {
 				buf := make([]byte, 1<<18)
 				n := runtime.Stack(buf, true)
 				fmt.Fprintf(os.Stderr, "%s one decode grew resident memory by %d MiB; it gets no more address space. Goroutines at this moment:\n%s\n\n", guardMark, (rss-base)>>20, buf[:n])
-				_ = syscall.Setrlimit(syscall.RLIMIT_AS, &syscall.Rlimit{Cur: uint64(statm(0)), Max: hard})
+				_ = syscall.Setrlimit(syscall.RLIMIT_AS, &syscall.Rlimit{Cur: uint64(statm(0)) + guardHeadroom, Max: hard})
 				lowered = true
 			}
 		}
